@@ -22,6 +22,7 @@ class C10(c01.C01):
 
     def judge(self, doc, out, hist, where, opts=None, extra=None):
         want = observe.dobs(doc)
+        observe.touch(doc)
         xf = c02.xml_filter(doc)
         for fmt, o in (self.option_sets if opts is None else opts):
             if fmt == "xml" and xf is not None:
